@@ -5,4 +5,5 @@ cd /verif/harness
 export CARGO_NET_OFFLINE=true
 cargo build --release --offline
 cargo build --profile deploy --offline
+cargo build --release --offline --manifest-path /repo/Cargo.toml -p server --bin server --target-dir /verif/target/repo
 echo "setup ok"
